@@ -158,6 +158,13 @@ ORDER_SETS = [
 ]
 
 
+def split_order(key):
+    i = 0
+    while i < len(key) and key[i] in "+-<>*":
+        i += 1
+    return key[:i]
+
+
 def order_prefix(order):
     if isinstance(order, int):
         return ("+" if order > 0 else "-") * abs(order)
@@ -260,6 +267,20 @@ def link(draw, blocks, label_pool, allow_replace=True, allow_atype_sel=True, pre
         inter.append(draw(interaction("bonds", keys)))
     keys_all = list(atoms)
     edges, non_edges, patterns = [], [], []
+    if draw(st.integers(0, 5)) == 0:
+        # a labelled link: every inter-residue atom edge the interactions make is listed in [ edges ] with
+        # the label (an unlabelled edge between the same residues would strip the label again)
+        lt = draw(st.sampled_from(["circle", "a13"]))
+        cross = []
+        for it in inter:
+            if it["sec"] in ("bonds", "angles", "dihedrals", "constraints") and not (it["sec"] == "dihedrals" and it["params"][0] == "2"):
+                for a, b in zip(it["atoms"][:-1], it["atoms"][1:]):
+                    if a != b and split_order(a) != split_order(b) and [a, b] not in cross and [b, a] not in cross:
+                        cross.append([a, b])
+        if draw(st.integers(0, 5)) == 0 and len(cross) > 1:
+            cross = cross[:-1]          # one edge stays unlabelled: the residue-level label vanishes
+        for a, b in cross:
+            edges.append([a, b, {"linktype": lt}])
     if not bonded_only and draw(st.integers(0, 7)) == 0 and len(keys_all) >= 2:
         pair = list(draw(st.permutations(keys_all))[:2])
         edges.append(pair + [{}])
@@ -349,8 +370,13 @@ def residue_graph(draw, resnames, max_res=8, label_pool=(), routes=("json", "jso
             attrs[lab[0]] = lab[1]
         nodes.append({"id": ids[i], "resid": start + i, "resname": names[i], "attrs": attrs})
     eds = []
-    for (u, v) in edges:
+    label_mode = draw(st.sampled_from(["none", "none", "ring", "random"])) if route == "json" else "none"
+    for k, (u, v) in enumerate(edges):
         attrs = {}
+        if label_mode == "ring" and kind in ("ring", "ringtail") and u == 0 and v != 1:
+            attrs["linktype"] = "circle"
+        elif label_mode == "random" and draw(st.integers(0, 3)) == 0:
+            attrs["linktype"] = draw(st.sampled_from(["circle", "a13"]))
         pair = [ids[u], ids[v]] if draw(st.booleans()) else [ids[v], ids[u]]
         eds.append(pair + [attrs])
     order = draw(st.permutations(range(n))) if route == "json" else list(range(n))
